@@ -303,6 +303,29 @@ fn frames_case(ctx: &mut Ctx, case: u64, rng: &mut Rng, scratch: &Scratch) {
         }
         cut += step;
     }
+    // a frame that declares fewer bytes than its message needs is a truncated frame even when more
+    // bytes (the next frames) are already buffered behind it: an error, never a message
+    {
+        let mut off = 0;
+        for (mi, m) in msgs.iter().enumerate() {
+            for short in [m.len() - 1, m.len() / 2, 1] {
+                if short >= m.len() {
+                    continue;
+                }
+                let mut s2 = stream[off..].to_vec();
+                s2[..4].copy_from_slice(&(short as u32).to_be_bytes());
+                let mut buf = BytesMut::from(&s2[..]);
+                let snap = buf.to_vec();
+                let Some(r) = guard(ctx, case, "frame-decoder", &snap[..snap.len().min(64)], || decode_frame(&mut buf)) else { return };
+                ctx.count("shortened_length_prefixes", 1);
+                if let Ok(Some(_)) = r {
+                    ctx.violation(case, "frame-with-too-short-length-prefix-yields-message", json!({"message": mi, "declared": short, "needed": m.len(), "buffered_behind": s2.len() - 4 - short}));
+                    return;
+                }
+            }
+            off += 4 + m.len();
+        }
+    }
     // oversized / boundary length prefixes
     for (len, must_err) in [(1u32 << 30, false), ((1u32 << 30) + 1, true), (u32::MAX, true)] {
         let mut buf = BytesMut::from(&len.to_be_bytes()[..]);
